@@ -4,7 +4,11 @@
  *                                == host ":" DECIMAL   otherwise, DECIMAL = the decimal digits of port without leading zeros
  *      (reference digits computed here by repeated subtraction, independent of the library);
  *  (b) parse_netloc(render_netloc(host, port), default_port) == (host, port != 0 ? port : default_port).
- * render_netloc's std::to_string(int) is the real libstdc++ code (digit loops on a symbolic value).
+ * render_netloc's std::to_string(int) is cut (unit 'net', -fno-inline) and replaced IN THE GENERATED-C MODES by the exact,
+ * division-free model below (digits by repeated subtraction, the small-string std::string object built by hand): with the
+ * real libstdc++ digit loop the symbolic-position writes into the std::string object push CBMC into its array theory (no
+ * verdict, > 8 GB). The native real build runs the real std::to_string, and translation validation compares the two
+ * character by character on the sampled ports. Values outside (-100000, 100000) are a reported bound failure.
  * parse_netloc's std::stod calls strtod = stub, EXACT for texts that are 1..5 decimal digits (value accumulated in integers,
  * converted once); any other text: contract (arbitrary value, end pointer inside the text, nothing consumed => 0). */
 #include "harness.h"
@@ -29,6 +33,35 @@ double strtod(const char* s, char** e) { return strtod_model((const uint8_t*)s, 
 double X_strtod(uint8_t* s, uint8_t* e) { return strtod_model(s, (uint8_t**)e); }
 #endif
 
+#ifndef VERIF_NATIVE_REAL
+/* std::string std::to_string(int) -- sret pointer to an uninitialised std::string {char* data; size_t size; char buf[16]} */
+void X__ZNSt7__cxx119to_stringEi(uint8_t* ret, uint32_t val) {
+  uint32_t neg = ((int32_t)val < 0), u = neg ? 0u - val : val;
+#ifdef VERIF_CBMC
+  __CPROVER_assert(u < 100000u, "BOUND: to_string model covers |value| < 100000");
+#else
+  if (!(u < 100000u)) ASSERT(0, "BOUND: to_string model covers |value| < 100000"); /* silent unless it fails: this stub does not exist in the real build */
+#endif
+  ASSUME(u < 100000u);
+  static const uint32_t pw[5] = {10000, 1000, 100, 10, 1};
+  uint8_t dg[5]; uint32_t nd = 1;
+  for (int k = 0; k < 5; k++) {
+    uint8_t c = 0;
+    for (int j = 0; j < 9; j++) if (u >= pw[k]) { u -= pw[k]; c++; }
+    dg[k] = c;
+    if (c != 0 && nd < (uint32_t)(5 - k)) nd = (uint32_t)(5 - k);
+  }
+  uint32_t total = neg + nd;
+  uint8_t* buf = ret + 16;
+  for (uint32_t i = 0; i < 7; i++) { /* every position written at a constant offset; value selected */
+    uint8_t c = 0;
+    if (i < total) { if (neg && i == 0) c = '-'; else c = (uint8_t)('0' + dg[5 - nd + (i - neg)]); }
+    buf[i] = c;
+  }
+  *(uint8_t**)ret = buf;
+  *(uint64_t*)(ret + 8) = total;
+}
+#endif
 #define CAP (LEN + 8)
 void harness(void) {
   uint8_t host[LEN + 1], text[CAP], ref[CAP], h2[CAP];
